@@ -8,6 +8,7 @@ PROP = "C04"
 LEVEL = "exploration"
 SHARDS = {"quick": 8, "thorough": 16}
 TIMEOUT = {"quick": 900, "thorough": 7200}
+THOROUGH_MULT = 30   # thorough budgets below are multiplied by this (sized for roughly five minutes on 16 cores)
 REQUIRED = {"encode": 2000, "reject_size": 100, "whitespace_hex": 50, "bits_api": 10, "wordlist": 1}
 ANCHORS = ['bip39:mnemonic_from_entropy', 'bip39:mnemonic_from_entropy_bits', 'base_wallet:BaseWallet.from_entropy_hex']
 RULE = ("per allowed size: all-zero, all-one, walking-one and walking-zero over EVERY bit position (exhaustive, 2x960), "
